@@ -22,6 +22,9 @@ def run(ctx, rep):
     rep.rule("addend-once", "the addend reaches the result through exactly one wrapping_add on every path: on the !has_name edge added to the input offset before lookup, on the has_name edge added to the output address after lookup")
     rep.rule("lookup-both-tables", "every lookup of a string start in find_string consults the primary OffsetMap and, on a miss, the overflow table under the same "
              "key (a block holds a bounded number of starts; the rest spill to overflowed_string_offsets)")
+    rep.rule("same-part", "the per-section closures that size (finalise_sizes), place (finalise_layout), write (write_merged_strings) and address "
+             "(MergedStringStartAddresses::compute) a merged-string section all index the part map with <the closure's own section id>.part_id_with_alignment(MIN): "
+             "the strings are addressed in the part they were allocated and written in (sibling agreement)")
     rep.rule("fallback-distance", "find_string's backward search looks up `input_offset - i` and returns `found + i` for the same i")
     rep.rule("append-iff-new", "add_string pushes the string and bumps next_offset only inside the or_insert_with closure, and the closure yields the pre-bump offset")
     rep.rule("terminator", "take_string_hashed takes memchr(0)+1 bytes (terminator included) and fails when no terminator exists")
@@ -62,6 +65,7 @@ def run(ctx, rep):
                 rep.ob("addend-once", "lookup-uses-offset", any(c.endswith("::value") for c in o), "find_string is given the symbol value (+addend for section symbols)", g.file, t["l"])
 
     _lookup_both_tables(rep, P, F)
+    _same_part(rep, P, F)
     _fallback_distance(rep, P, F)
 
     a = F.hir_body(SM + "MergeStringsSectionBucket::add_string")
@@ -275,3 +279,30 @@ def _fallback_distance(rep, P, F):
                     res_ok = True
                     line = st.get("l")
     rep.ob("fallback-distance", "adds-same-distance", res_ok, "the result is BucketOffset(found string's offset + the same loop variable): the reference keeps pointing i bytes into the string", b.file, line)
+
+
+def _same_part(rep, P, F):
+    from mir import op_const
+    n = 0
+    for b in F.all_bodies:
+        if not b.key.startswith(("libwild::", "<libwild::")) or b.d["kind"] != "Closure":
+            continue
+        if not any("MergedStrings" in ty or "MergeString" in ty for ty in b.locals):
+            continue
+        flow = None
+        for bi, blk in enumerate(b.blocks):
+            t = blk["t"]
+            if blk.get("cleanup") or t["k"] != "call" or not (callee_key(t["f"]) or "").endswith("OutputSectionId::part_id_with_alignment") or len(t["args"]) != 2:
+                continue
+            if not str((op_const(t["args"][1]) or {}).get("def")).endswith("alignment::MIN"):
+                continue
+            flow = flow or P.flow(b)
+            o = flow.origins(t["args"][0])
+            n += 1
+            own = bool(o) and all(x[0] == "param" for x in o)
+            who = b.key.split("::{closure")[0].split("::")[-1]
+            rep.ob("same-part", f"{who}#{n}", own,
+                   f"{who}: part of the section id the closure was called with" if own else
+                   f"{who}: the part is taken from a section id derived through {sorted((x[1] or '').split('::')[-1] for x in o if x[0] == 'call')}, not from the section being processed: "
+                   "for a linker-script output section with several patterns (secondary sections) the strings are allocated and written in one part and addressed in another", b.file, t["l"])
+    rep.floor("same-part", "per-section closures indexing the MIN-aligned part of a merged-string section", n, 4)
